@@ -358,7 +358,7 @@ func runReplays(files []harnessFile, reps []string, hang bool) map[string]replay
 		for _, n := range nl {
 			fmt.Fprintf(&sb, "\t%q: %s,\n", n, n)
 		}
-		sb.WriteString("}\n\nfunc TestVerifReplay(t *testing.T) {\n\tfor _, item := range strings.Split(os.Getenv(\"VERIF_REPLAY_LIST\"), \";\") {\n\t\tif item == \"\" {\n\t\t\tcontinue\n\t\t}\n\t\tparts := strings.SplitN(item, \"=\", 2)\n\t\th := verifHarnesses[parts[0]]\n\t\tif h == nil {\n\t\t\tfmt.Printf(\"VERIF-REPLAY file=%s outcome=%q\\n\", parts[1], \"no-such-harness\")\n\t\t\tcontinue\n\t\t}\n\t\tos.Setenv(\"VERIF_MODEL\", parts[1])\n\t\tfmt.Printf(\"VERIF-REPLAY-START file=%s\\n\", parts[1])\n\t\tout := vrt.Run(h)\n\t\tfmt.Printf(\"VERIF-REPLAY file=%s outcome=%q covered=%q\\n\", parts[1], out, strings.Join(vrt.Covered, \",\"))\n\t}\n}\n")
+		sb.WriteString("}\n\nfunc TestVerifReplay(t *testing.T) {\n\tlistBytes, _ := os.ReadFile(os.Getenv(\"VERIF_REPLAY_LIST_FILE\"))\n\tfor _, item := range strings.Split(string(listBytes), \";\") {\n\t\tif item == \"\" {\n\t\t\tcontinue\n\t\t}\n\t\tparts := strings.SplitN(item, \"=\", 2)\n\t\th := verifHarnesses[parts[0]]\n\t\tif h == nil {\n\t\t\tfmt.Printf(\"VERIF-REPLAY file=%s outcome=%q\\n\", parts[1], \"no-such-harness\")\n\t\t\tcontinue\n\t\t}\n\t\tos.Setenv(\"VERIF_MODEL\", parts[1])\n\t\tfmt.Printf(\"VERIF-REPLAY-START file=%s\\n\", parts[1])\n\t\tout := vrt.Run(h)\n\t\tfmt.Printf(\"VERIF-REPLAY file=%s outcome=%q covered=%q\\n\", parts[1], out, strings.Join(vrt.Covered, \",\"))\n\t}\n}\n")
 		testPath := filepath.Join(work, strings.ReplaceAll(dir, "/", "_")+"_replay_test.go")
 		os.WriteFile(testPath, []byte(sb.String()), 0o644)
 		ov[filepath.Join(repoDir, dir, "zz_verif_replay_test.go")] = testPath
@@ -383,7 +383,9 @@ func runReplays(files []harnessFile, reps []string, hang bool) map[string]replay
 			pat := "./" + dir
 			cmd := exec.Command("go", "test", "-tags", "verif", "-vet=off", "-count=1", "-timeout", timeout, "-overlay", ovPath, "-run", "^TestVerifReplay$", "-v", pat)
 			cmd.Dir = repoDir
-			cmd.Env = append(goEnv(), "VERIF_REPLAY_LIST="+strings.Join(batch, ";"))
+			listPath := filepath.Join(work, fmt.Sprintf("list-%d.txt", len(out)))
+			os.WriteFile(listPath, []byte(strings.Join(batch, ";")), 0o644)
+			cmd.Env = append(goEnv(), "VERIF_REPLAY_LIST_FILE="+listPath)
 			b, _ := cmd.CombinedOutput()
 			raw := string(b)
 			started := ""
